@@ -156,8 +156,8 @@ func (w *Worker) resetPath(prefix []Decision) {
 	w.prefix = prefix
 	w.dpos = 0
 	w.decisions = w.decisions[:0]
-	w.model = nil
-	w.hasModel = false
+	w.model = map[string]uint64{} // the all-zero assignment is a model of the empty path condition
+	w.hasModel = true
 	w.instrs = 0
 	w.varCnt = map[string]int{}
 	w.varWidths = map[string]int{}
@@ -234,6 +234,9 @@ func (w *Worker) branch(c *Term) bool {
 		} else {
 			w.sol.Assert(ts.Not(c))
 		}
+		if w.hasModel && w.evalBool(c) != arm {
+			w.hasModel = false
+		}
 		w.lits[c.id] = arm
 		w.record(d)
 		return arm
@@ -280,6 +283,9 @@ func (w *Worker) concretize(t *Term, what string) uint64 {
 		switch d.K {
 		case 'v':
 			w.sol.Assert(ts.Eq(t, ts.Const(t.W, d.V)))
+			if w.hasModel && w.ts.Eval(t, w.model, map[int]uint64{}) != d.V {
+				w.hasModel = false
+			}
 			w.record(d)
 			return d.V
 		case 'x':
@@ -346,6 +352,9 @@ func (w *Worker) assume(c *Term) {
 	}
 	w.sol.Assert(c)
 	if w.inPrefix() {
+		if w.hasModel && !w.evalBool(c) {
+			w.hasModel = false
+		}
 		return
 	}
 	if w.hasModel && w.evalBool(c) {
@@ -395,6 +404,9 @@ func (w *Worker) checkProp(bad *Term, id, kind, site, msg string) {
 			panic(pathEnd{"violation-prefix"})
 		}
 		w.sol.Assert(ts.Not(bad))
+		if w.hasModel && w.evalBool(bad) {
+			w.hasModel = false
+		}
 		return
 	}
 	if bad.isTrue() {
@@ -503,7 +515,18 @@ func (w *Worker) runPath(h *Harness, prefix []Decision) (end string, err error) 
 	_ = st
 	// witness
 	var wit *Witness
+	keepWit := false
 	if end == "done" && err == nil {
+		h.mu.Lock()
+		np := h.Stats.Paths
+		h.mu.Unlock()
+		// keep the first witnessN paths, then a deterministic thinning sample
+		keepWit = np < w.eng.witnessN || (w.eng.witnessN > 0 && pathHash(w.decisions)%uint64(np/4+1) == 0 && np%3 == 0)
+		if w.hasModel && !keepWit {
+			keepWit = false
+		}
+	}
+	if keepWit {
 		func() {
 			defer func() {
 				if r := recover(); r != nil {
@@ -586,11 +609,7 @@ func (w *Worker) runPath(h *Harness, prefix []Decision) (end string, err error) 
 		if len(s.Witnesses) < w.eng.witnessN {
 			s.Witnesses = append(s.Witnesses, wit)
 		} else if w.eng.witnessN > 0 {
-			// reservoir-like replacement keyed on path count for diversity (deterministic)
-			k := (s.Paths * 7919) % (s.Paths + 1)
-			if k < w.eng.witnessN {
-				s.Witnesses[k] = wit
-			}
+			s.Witnesses[int(pathHash(w.decisions)>>8)%w.eng.witnessN] = wit
 		}
 	}
 	h.mu.Unlock()
@@ -708,4 +727,13 @@ func sortedKeys(m map[string]int) []string {
 
 func shortFn(s string) string {
 	return strings.ReplaceAll(s, "github.com/gobwas/", "")
+}
+
+func pathHash(ds []Decision) uint64 {
+	h := uint64(1469598103934665603)
+	for _, d := range ds {
+		h ^= uint64(d.K) + d.V*31
+		h *= 1099511628211
+	}
+	return h
 }
